@@ -17,6 +17,10 @@ spec   : the extracted decision procedure struct_okb (sound for `spec`, Properti
          center_of_mass; theta = 0 sums are compared with O(N^2) all-pairs sums; theta = 2^-60 must
          reproduce theta = 0 bit for bit; for 0 < theta <= 1/sqrt(8) the sums must lie within the proved
          bound (forces_error_bound) of the all-pairs sums.
+replay : every real dump and every force triple is also compared with a binary64 replay of the shipped algorithm
+         (class FloatTree; boxes/indices/counts exactly, centre of mass and sums to a few ulps) - the reference on
+         arbitrary doubles; mode G runs TSNE::computeGradient / evaluateError of tsne.hpp (the caller of the tree)
+         and checks the gradient against the replay, the exact all-pairs repulsion (theta = 0) and the proved bounds.
 stream2: "tolerance stream" (a TEST, labelled so in the evidence): mean-centred constructor
          QuadTree(Y, N) on random doubles and explicit non-dyadic roots with points one ulp from the
          split lines; checked on the dump alone (nothing lost, masses add up, isCorrect, theta=0 sums
@@ -48,6 +52,12 @@ TRUSTED = [
     "add_summary over the cell list printed by the extracted forces_cells (forces_fold_cells proves the fold)",
     "binary64 rounding of x -/+ .5*hw on non-dyadic boxes is NOT covered by the proof (exact arithmetic); "
     "the tolerance stream tests it",
+    "class FloatTree in checks/c18.py: the shipped insert/subdivide/computeNonEdgeForces and the two loops of tsne.hpp "
+    "replayed in Python doubles (same operations, same order; assumes g++ emits no FMA / x87 excess precision, which "
+    "holds for the flags vlib uses); reference for arbitrary doubles and for attributing a tolerance-stream failure to "
+    "the known finding F25; itself tied to the Coq model through the dyadic cases, where the same real dump must equal both",
+    "TSNE::computeGradient / evaluateError are called with a synthetic sparse P (ring of degree 0..2, value 2^-6); "
+    "exp/log of libm enter only evaluateError's cost value",
 ]
 ASSUMPTIONS = [
     "points and root box are finite doubles (no NaN/inf); indices passed to insert() are within the data",
@@ -681,11 +691,11 @@ class FloatTree:
         n.size = 0
         n.leaf = False
 
-    def forces(self, qi, theta):
-        """computeNonEdgeForces(qi, theta, {0,0}, 0) in doubles; also the smallest relative distance of a summary
+    def forces(self, qi, theta, sq0=0.0):
+        """computeNonEdgeForces(qi, theta, {0,0}, sq0) in doubles; also the smallest relative distance of a summary
         decision from its threshold (a refactoring that changes rounding may flip decisions closer than ~1e-12)"""
         p = self.P[qi]
-        acc = [0.0, 0.0, 0.0]
+        acc = [0.0, 0.0, sq0]
         margin = [float("inf")]
 
         def rec(n):
@@ -1105,6 +1115,176 @@ def check_float_replay(ctx, c, d, stats):
     return None
 
 
+def auto_root_float(P):
+    """the root box QuadTree(Y, N) computes, same operations in Python doubles"""
+    n = len(P)
+    mean, mn, mx = [0.0, 0.0], [1.7976931348623157e308] * 2, [-1.7976931348623157e308] * 2
+    for p in P:
+        for dd in range(2):
+            mean[dd] += p[dd]
+            if p[dd] < mn[dd]:
+                mn[dd] = p[dd]
+            if p[dd] > mx[dd]:
+                mx[dd] = p[dd]
+    mean = [mean[0] / float(n), mean[1] / float(n)]
+    return (mean[0], mean[1], max(mx[0] - mean[0], mean[0] - mn[0]) + 1e-5,
+            max(mx[1] - mean[1], mean[1] - mn[1]) + 1e-5)
+
+
+FLT_MIN = 2.0 ** -126
+VAL_P = 0.015625
+
+
+def gen_grad_cases(rng, count):
+    """tsne.hpp's own use of the tree: TSNE::computeGradient / evaluateError on a map Y"""
+    cases = []
+    for k in range(count):
+        n = rng.choice([2, 3, 4, 6, 9, 16, 30, 60])
+        r = rng.random()
+        if r < 0.5:
+            sc = 10.0 ** rng.randint(-4, 2)
+            pts = [(rng.gauss(0, 1) * sc, rng.gauss(0, 1) * sc) for _ in range(n)]
+        elif r < 0.8:
+            pts = [(float(Fraction(rng.randint(-64, 64), 32)), float(Fraction(rng.randint(-64, 64), 32))) for _ in range(n)]
+        else:
+            pts = [(rng.gauss(0, 1), rng.gauss(0, 1)) for _ in range(max(1, n // 2))]
+            pts = (pts + pts)[:n] if n >= 2 else pts          # coincident pairs
+        theta = rng.choice(["0:0", "0:0", "1:-6", "1:-3", "1:-1", "1:0"])
+        cases.append({"kind": "grad", "mode": "G", "root": ["0:0"] * 4, "pts": [[me(a), me(b)] for a, b in pts],
+                      "order": list(range(len(pts))), "thetas": [theta], "queries": [], "deg": rng.choice([0, 0, 1, 2]),
+                      "short": False})
+    return cases
+
+
+def evaluate_grad(ctx, exe, cases, stats):
+    """run TSNE::computeGradient / evaluateError (harness mode G); compare with the binary64 replay of
+    quadtree.hpp + the two loops of tsne.hpp; at theta = 0 without coincident points compare with the exact
+    all-pairs gradient, for 0 < theta <= 1/sqrt(8) and an empty P with the proved bounds"""
+    if not cases:
+        return 0
+    inp = []
+    for k, c in enumerate(cases):
+        t = ["G", str(k), str(len(c["pts"]))]
+        for a, b in c["pts"]:
+            t += [a, b]
+        t += [c["thetas"][0], str(c["deg"])]
+        inp.append(" ".join(t) + "\n")
+    results = [None] * len(cases)
+    start, guard, crashes = 0, 0, 0
+    while start < len(cases) and guard < 10 and crashes < MAX_CRASHES:
+        guard += 1
+        r = ctx.run(exe, "".join(inp[start:]), timeout=60)
+        recs, ended = split_records(r.out, len(cases))
+        for k in ended:
+            results[k] = recs[k]
+        if r.rc == 0 and not r.timed_out:
+            break
+        bad = next((k for k in range(start, len(cases)) if results[k] is None), None)
+        if bad is None:
+            break
+        crashes += 1
+        ctx.violation(cases[bad], "TSNE::computeGradient / evaluateError aborts or hangs on this map: "
+                      + str(r.sanitizer or ("timeout" if r.timed_out else r.err[-300:]))[:500])
+        results[bad] = []
+        start = bad + 1
+    import sys
+    sys.setrecursionlimit(max(sys.getrecursionlimit(), 20000))
+    for k, c in enumerate(cases):
+        lines = results[k]
+        if not lines:
+            continue
+        P = [(float(fr(a)), float(fr(b))) for a, b in c["pts"]]
+        n, deg, th = len(P), c["deg"], float(fr(c["thetas"][0]))
+        try:
+            dC = {int(w[1]): (hexf(w[2]), hexf(w[3])) for w in (l.split() for l in lines) if w[0] == "D"}
+            Cerr = [hexf(l.split()[1]) for l in lines if l.startswith("E ")][0]
+            if len(dC) != n:
+                raise ValueError("rows")
+        except (ValueError, IndexError):
+            ctx.violation(c, "TSNE::computeGradient printed garbage")
+            continue
+        stats["grad_cases"] += 1
+        # ---- binary64 replay
+        t = FloatTree(P, *auto_root_float(P))
+        for i in range(n):
+            t.insert(t.root, i)
+        pos = [[0.0, 0.0] for _ in range(n)]
+        for a in range(n):
+            for kk in range(1, deg + 1):
+                j = (a + kk) % n
+                b0, b1 = P[a][0] - P[j][0], P[a][1] - P[j][1]
+                D = 0.0
+                D += b0 * b0
+                D += b1 * b1
+                D = VAL_P / (1.0 + D)
+                pos[a][0] += D * b0
+                pos[a][1] += D * b1
+        sq, neg, margin = 0.0, [], float("inf")
+        for a in range(n):
+            f, mg = t.forces(a, th, sq)
+            neg.append((f[0], f[1]))
+            sq = f[2]
+            margin = min(margin, mg)
+        co = len(set(P)) != n
+        if margin >= 1e-9 and t.cracks == 0 and sq != 0.0:
+            scale = 1e-11 * (1.0 + max(max(abs(v) for v in row) for row in dC.values()))
+            for a in range(n):
+                want = (pos[a][0] - neg[a][0] / sq, pos[a][1] - neg[a][1] / sq)
+                if not (abs(want[0] - dC[a][0]) <= scale and abs(want[1] - dC[a][1]) <= scale):
+                    ctx.mismatch(c, "computeGradient row %d = %r, binary64 replay gives %r" % (a, dC[a], want))
+                    break
+            Cw = 0.0
+            for a in range(n):
+                for kk in range(1, deg + 1):
+                    j = (a + kk) % n
+                    b0, b1 = P[a][0] - P[j][0], P[a][1] - P[j][1]
+                    Q = 0.0
+                    Q += b0 * b0
+                    Q += b1 * b1
+                    Q = (1.0 / (1.0 + Q)) / sq
+                    Cw += VAL_P * math.log((VAL_P + FLT_MIN) / (Q + FLT_MIN))
+            if abs(Cw - Cerr) > 1e-10 * (1.0 + abs(Cw)):
+                ctx.mismatch(c, "evaluateError = %r, binary64 replay gives %r" % (Cerr, Cw))
+            stats["grad_replayed"] += 1
+        # ---- the property on the gradient itself
+        if co or t.cracks:
+            continue
+        Pq = [(Fraction(a), Fraction(b)) for a, b in P]
+        ex = [allpairs(Pq, list(range(n)), a) for a in range(n)]
+        T = math.fsum(e[2] for e in ex)
+        if th == 0.0:
+            for a in range(n):
+                for dd in range(2):
+                    want = pos[a][dd] - ex[a][dd] / T
+                    if abs(want - dC[a][dd]) > 1e-9 * (1.0 + abs(want)):
+                        ctx.violation(c, "theta = 0: gradient row %d is %r, the exact all-pairs repulsion gives %r"
+                                      % (a, dC[a], (pos[a][0] - ex[a][0] / T, pos[a][1] - ex[a][1] / T)))
+                        break
+                else:
+                    continue
+                break
+            stats["grad_exact"] += 1
+        elif 8 * th * th <= 1 and deg == 0:
+            eps = 9 * th + 8 * th * th
+            kap = eps * (2 + eps) / 2
+            okc = True
+            for a in range(n):
+                for dd in range(2):
+                    # -dC * s = neg_f for the true s = sum_Q in [T(1-eps), T(1+eps)];  |neg_f - exact| <= kap * es
+                    v = -dC[a][dd]
+                    lo, hi = sorted((v * T * (1 - eps), v * T * (1 + eps)))
+                    B = kap * ex[a][2] + 1e-9 * ex[a][2]
+                    if hi < ex[a][dd] - B or lo > ex[a][dd] + B:
+                        ctx.violation(c, "theta = %s: gradient row %d = %r is outside the proved bounds around the exact "
+                                         "all-pairs repulsion (forces_error_bound, nonedge_loop_bound)" % (c["thetas"][0], a, dC[a]))
+                        okc = False
+                        break
+                if not okc:
+                    break
+            stats["grad_bound"] += 1
+    return len(cases)
+
+
 def check_order_independence(cases, impls, fails, ptsF, stats, mk_report):
     """Properties_C18.order_independent_tree on the REAL trees: cases that insert the same index multiset into the
     same root box must give the same cells, cum_size, count[0], a coincident stored index, and centres of mass equal
@@ -1166,17 +1346,7 @@ def check_auto_roots(ctx, mexe, cases, impls, stats):
         c, d = cases[k], impls[k]
         P = [(float(fr(a)), float(fr(b))) for a, b in c["pts"]]
         n = len(P)
-        mean, mn, mx = [0.0, 0.0], [1.7976931348623157e308] * 2, [-1.7976931348623157e308] * 2
-        for p in P:
-            for dd in range(2):
-                mean[dd] += p[dd]
-                if p[dd] < mn[dd]:
-                    mn[dd] = p[dd]
-                if p[dd] > mx[dd]:
-                    mx[dd] = p[dd]
-        mean = [mean[0] / float(n), mean[1] / float(n)]
-        want = (mean[0], mean[1], max(mx[0] - mean[0], mean[0] - mn[0]) + 1e-5,
-                max(mx[1] - mean[1], mean[1] - mn[1]) + 1e-5)
+        want = auto_root_float(P)
         got = tuple(d["cells"][0][1:5])
         stats["auto_roots"] += 1
         if got != want:
@@ -1280,7 +1450,7 @@ def new_stats():
             "force_full": 0, "exact_ties": 0, "f25_cracks": 0, "auto_roots": 0, "bound_checks": 0, "cells_compared": 0, "max_depth": 0,
             "internal_cells": 0, "leaves_with_absorbed_duplicates": 0, "cases_split_tree_with_duplicates": 0,
             "cases_point_on_root_split_line": 0, "order_groups": 0, "order_pairs": 0, "float_replays": 0, "float_replay_forces": 0,
-            "float_replay_near_tie": 0}
+            "float_replay_near_tie": 0, "grad_cases": 0, "grad_replayed": 0, "grad_exact": 0, "grad_bound": 0}
 
 
 def run_batch(ctx, exe, mexe, cases, stats, with_model=True):
@@ -1346,6 +1516,9 @@ def run(ctx):
     n = 0
     for i in range(0, len(cases), 600):
         n += run_batch(ctx, exe, mexe, cases[i:i + 600], stats)
+    gcases = gen_grad_cases(rng, 60 if ctx.quick else 600)
+    n += evaluate_grad(ctx, exe, gcases, stats)
+    cases += gcases
     ctx.note("wall clock: cases %.0f s" % (ctx.elapsed() - t_ext))
     searched = 0
     if ctx.is_unshown() and not ctx.has_violation():
@@ -1355,6 +1528,7 @@ def run(ctx):
             b2 = {k: v * 2 for k, v in budgets(ctx)[0].items()}
             more = gen_cases(rng, b2) + gen_tol_cases(rng, 40)
             searched += run_batch(ctx, exe, mexe, more, stats, with_model=False)
+            searched += evaluate_grad(ctx, exe, gen_grad_cases(rng, 100), stats)
             if ctx.has_violation() or ctx.elapsed() > (150 if ctx.quick else 900):
                 break
     hist = {}
@@ -1377,7 +1551,8 @@ def run(ctx):
              "real tree equals the extracted model's (boxes, size, index, count, cum_size exactly; center_of_mass and "
              "force sums under a rounding bound), the extracted struct_okb runs on the real dump.  Tolerance stream "
              "(tol_auto, tol_ulp; a TEST): mean-centred constructor on random doubles and points one ulp from split "
-             "lines, checked on the dump alone.  non-trivial = at least 3 insertions and 2 distinct points; distinct by "
+             "lines, checked on the dump alone and against a binary64 replay of the shipped algorithm.  grad: "
+             "TSNE::computeGradient / evaluateError on random, dyadic and coincident maps.  non-trivial = at least 3 insertions and 2 distinct points; distinct by "
              "hash of (mode, root, points, order).",
         samples=[{k: c[k] for k in ("kind", "mode", "root", "pts", "order")} for c in
                  cases[ncorpus:ncorpus + 2] + cases[-2:]],
@@ -1397,6 +1572,15 @@ def replay(ctx, case):
     c.setdefault("queries", list(range(len(c["pts"]))))
     c.setdefault("short", False)
     stats = new_stats()
+    if c.get("mode") == "G":
+        evaluate_grad(ctx, exe, [c], stats)
+        bad = ctx.has_violation() or ctx.is_unshown()
+        for u in ctx._unshown[:3]:
+            print("no longer shown: " + u[:400])
+        for _c, why in ctx._violations[:3]:
+            print("why: " + why[:600])
+        print("replay: property C18 %s on this map" % ("FAILS" if bad else "holds"))
+        return 1 if bad else 0
     fails = evaluate(ctx, exe, mexe, [c], stats, with_model=not c["kind"].startswith("tol"), record=True)
     r = run_impl(ctx, exe, [c])[0]
     print("\n".join(r["lines"][:40]))
